@@ -264,7 +264,7 @@ pub fn run(lines: &[Value], opts: &FlowOpts, trace_path: &str) -> Summary {
         if ngraphs >= opts.max_graphs { break; }
         ngraphs += 1;
         let map = g.label_map(&mut rng, false);
-        let spec = g.to_spec(&map, &[]);
+        let spec = g.to_spec_messy(&map, &[], &mut rng);
         let sig = cycle_basis(&g.edges);
         let s = match build(&spec, sig, g.d) { BuildOut::Ok(s) => s, _ => { sm.count("build_not_ok"); continue; } };
         for r in 0..opts.runs_per_graph {
@@ -282,6 +282,12 @@ pub fn run(lines: &[Value], opts: &FlowOpts, trace_path: &str) -> Summary {
                     x[i] = rng.gen_range(1e-3..1.0 - 1e-3);
                 }
             }
+            // now and then one xi so small that the running product kappa underflows to 0
+            if e >= 3 && r == 1 && ngraphs % 5 == 0 {
+                let k = rng.gen_range(0..e - 1);
+                x[2 * k + 1] = [1e-300, f64::MIN_POSITIVE, 1e-200][rng.gen_range(0..3)];
+                sm.count("runs_with_underflowing_xi");
+            }
             let extra = if r % 2 == 0 { 3 } else { 0 };
             let fr = trace_one(s.as_ref(), &g, &x, &lat, extra, &set, &mut rng);
             run_id += 1;
@@ -289,7 +295,8 @@ pub fn run(lines: &[Value], opts: &FlowOpts, trace_path: &str) -> Summary {
             sm.count(&format!("outcome_{}", fr.outcome.name()));
             if e >= 3 { sm.nontrivial += 1; }
             let reset = json!({"ev": "Reset", "run": run_id, "g": inst["g"], "stab": set.stability.is_some(), "debug": set.debug, "meta": set.meta,
-                               "x": x.iter().map(|v| hexf(*v)).collect::<Vec<_>>()});
+                               "x": x.iter().map(|v| hexf(*v)).collect::<Vec<_>>(), "extra": extra,
+                               "lat": lat.iter().map(|l| l.map(|p| p.0).unwrap_or(-1)).collect::<Vec<_>>()});
             writeln!(f, "{}", reset).unwrap();
             sm.events += 1 + fr.events.len() as u64;
             if sm.samples.len() < 2 { sm.sample(json!({"reset": reset, "events": fr.events})); }
@@ -297,5 +304,30 @@ pub fn run(lines: &[Value], opts: &FlowOpts, trace_path: &str) -> Summary {
         }
     }
     sm.add("graphs", ngraphs as i64);
+    sm
+}
+
+
+/// replay-flow: re-execute recorded runs (their Reset events carry graph, settings, point) through the real code
+pub fn replay(resets: &[Value], seed: u64, trace_path: &str) -> Summary {
+    use std::io::Write;
+    let mut sm = Summary::default();
+    let mut f = std::io::BufWriter::new(std::fs::File::create(trace_path).unwrap());
+    let mut rng = rng_for(seed, 77);
+    for r in resets.iter().filter(|r| r["ev"] == "Reset") {
+        let g = InstGraph::parse(&r["g"]);
+        let map = g.label_map(&mut rng, false);
+        let spec = g.to_spec(&map, &[]);
+        let s = match build(&spec, cycle_basis(&g.edges), g.d) { BuildOut::Ok(s) => s, _ => { sm.count("build_not_ok"); continue; } };
+        let x: Vec<f64> = arr(&r["x"]).iter().map(|h| unhexf(h.as_str().unwrap())).collect();
+        let lat: Vec<Option<(i64, i64)>> = match r.get("lat") { Some(l) if l.is_array() => arr(l).iter().map(|v| { let k = as_i64(v); if k >= 0 { Some((k, 1024)) } else { None } }).collect(), _ => vec![None; x.len()] };
+        let set = Settings::new(if r["stab"].as_bool().unwrap_or(false) { Some(1e-6) } else { None }, r["debug"].as_bool().unwrap_or(false), r["meta"].as_bool().unwrap_or(true));
+        let extra = r.get("extra").and_then(|v| v.as_u64()).unwrap_or(0) as usize;
+        let fr = trace_one(s.as_ref(), &g, &x, &lat, extra, &set, &mut rng);
+        writeln!(f, "{}", r).unwrap();
+        for ev in &fr.events { writeln!(f, "{}", ev).unwrap(); }
+        sm.evaluations += 1;
+        sm.events += 1 + fr.events.len() as u64;
+    }
     sm
 }
